@@ -47,6 +47,11 @@ class Rule:
 
                 if isinstance(doc, list):
                     doc = {"description": doc, "examples": []}
+                else:
+                    raise MalformedRuleSpec(
+                        f"Rule `doc` must be a string, a list of strings or a mapping, but "
+                        f"found: {doc!r}."
+                    )
 
             if "description" not in doc:
                 doc["description"] = []
@@ -57,6 +62,15 @@ class Rule:
             if "examples" not in doc:
                 doc["examples"] = []
 
+            for doc_key in ("description", "examples"):
+                if not isinstance(doc[doc_key], list) or not all(
+                    isinstance(i, str) for i in doc[doc_key]
+                ):
+                    raise MalformedRuleSpec(
+                        f"Rule `doc` {doc_key} must be a list of strings, but found: "
+                        f"{doc[doc_key]!r}."
+                    )
+
             # strip final new lines:
             for idx, desc_i in enumerate(doc["description"]):
                 doc["description"][idx] = desc_i.strip()
@@ -65,6 +79,11 @@ class Rule:
 
         cast = spec.get("cast")
         if cast is not None:
+            if not isinstance(cast, dict):
+                raise MalformedRuleSpec(
+                    f"Rule `cast` must be a mapping from type name to type name, but "
+                    f"found: {cast!r}."
+                )
             cast = dict(cast)  # rewritten below
         for cast_from in list((cast or {}).keys()):
             cast_to = cast.pop(cast_from)
